@@ -4,7 +4,7 @@
    asking the harness over the pipe. *)
 From Coq Require Import List NArith ZArith Bool Ascii String.
 From Authlib Require Import Base.Bytes Base.Base64 Base.BigEndian Base.PyVal.
-From Authlib Require Import Model.JWK Model.Claims Spec.ClaimsSpec.
+From Authlib Require Import Model.JWK Model.Claims Spec.ClaimsSpec Model.Resource.
 Import ListNotations.
 Open Scope string_scope.
 
@@ -91,6 +91,37 @@ Definition dispatch_claims (fn : string) (a : pv) : option pv :=
   else if String.eqb fn "at_spec" then Some (PBool (at_claims_ok o_vfun opts hdr claims now lw))
   else None.
 
+Definition pv_of_outcome (o : outcome) : pv :=
+  match o with
+  | Serve s => PList [PStr "serve"; PStr s]
+  | Refuse st c => PList [PStr "refuse"; PInt (Z.of_N st); PStr c]
+  | Escapes c => PList [PStr "escapes"; PStr c]
+  end.
+
+Definition store_of_pv (v : pv) : store :=
+  map (fun kv => (fst kv, {| t_expired := arg_b "expired" (snd kv);
+                             t_revoked := arg_b "revoked" (snd kv);
+                             t_scope := arg "scope" (snd kv) |})) (dict_of_pv v).
+
+Definition dispatch_resource (fn : string) (a : pv) : option pv :=
+  if String.eqb fn "validate_request" then
+    Some (pv_of_outcome (validate_request (arg_strs "types" a) (store_of_pv (arg "store" a))
+                           (arg_opt_s "auth" a) (norm_required (arg "required" a))))
+  else if String.eqb fn "scope_insufficient" then
+    Some (PBool (scope_insufficient (arg "token_scope" a) (norm_required (arg "required" a))))
+  else if String.eqb fn "split_max1" then Some (pv_of_strs (split_max1 (pv_str a)))
+  else if String.eqb fn "at_validate_request" then
+    let sg := match arg "sig" a with
+              | PList [PStr _; h; c] => SigOk (dict_of_pv h) (dict_of_pv c)
+              | PStr k => if String.eqb k "malformed" then SigMalformed
+                          else if String.eqb k "bad" then SigBad else SigKeyError
+              | _ => SigMalformed
+              end in
+    Some (pv_of_outcome (at_validate_request (arg_s "issuer" a) (arg_s "resource_server" a) sg
+                           (arg_z "now" a) (norm_required (arg "scopes" a)) (norm_required (arg "groups" a))
+                           (norm_required (arg "roles" a)) (norm_required (arg "entitlements" a))))
+  else None.
+
 Definition dispatch (fn : string) (a : pv) : pv :=
   if String.eqb fn "oracle_echo" then oracle "echo" a else
   match dispatch_jwk fn a with
@@ -98,6 +129,9 @@ Definition dispatch (fn : string) (a : pv) : pv :=
   | None =>
   match dispatch_claims fn a with
   | Some r => r
+  | None =>
+  match dispatch_resource fn a with
+  | Some r => r
   | None => err ("unknown function " ++ fn)
-  end end.
+  end end end.
 End D.
